@@ -1136,7 +1136,7 @@ def g_sem(rng):
     return prog, meta
 
 
-def g_tree(rng):
+def g_tree(rng, force_variant=None):
     """C12: a process tree of depth 0-3 reporting to one tracker; deaths in several orders."""
     depth = rng.choice([0, 1, 1, 2, 3])
     ctxs = ("loky", "loky", "loky_init_main")
@@ -1163,8 +1163,14 @@ def g_tree(rng):
     if depth >= 1:
         ops.append({"op": "submit", "ex": "e", "task": chain(1)})
     ops.append({"op": "wait", "futs": "all"})
-    variant = rng.choice(["signals", "signals", "kill_tracker", "root_first", "leaves_first", "kill_worker", "plain"])
-    if variant == "signals":
+    variant = force_variant or rng.choice(["signals", "signals", "kill_tracker", "root_first", "leaves_first", "kill_worker", "plain", "bad_request"])
+    if variant == "bad_request":
+        for i in range(rng.randint(1, 3)):
+            ops.append({"op": "tracker", "what": "bad_request", "kind": rng.choice(["unknown_type", "unregister_untracked", "maybe_unlink_untracked", "garbage"])})
+        ops.append({"op": "tracker", "what": "register_file", "name": "res1"})
+        ops.append({"op": "submit", "ex": "e", "task": {"k": "probe", "what": ["tracker", "pid", "depth"]}})
+        ops.append({"op": "wait", "futs": "all"})
+    elif variant == "signals":
         for i in range(rng.randint(1, 4)):
             ops.append({"op": "tracker", "what": "signal", "sig": rng.choice(["SIGINT", "SIGTERM"]), "settle": 0.05})
         ops.append({"op": "tracker", "what": "register_file", "name": "res1"})
